@@ -125,3 +125,13 @@ def perturbation_bounds(abs_err_sum, dt, n, periods, xi):
     bv = 2.0 * dt * abs_err_sum * np.ones_like(w)
     ba = 2 * xi * w * bv + w ** 2 * bu
     return bu, bv, ba
+
+
+LIB_TWO_PI = 6.2831853  # the truncated constant the library divides by (eqsig/sdof.py); relative error 1.14e-9
+
+
+def library_periods(periods):
+    """Periods T' with 2*pi/T' == 6.2831853/T: the exact reference evaluated at T' is the exact solution for the
+    angular frequency the library actually uses (used only to *identify* known finding C01-KF2 and by C03, whose
+    statement is about spectra versus series, not about the constant)."""
+    return np.asarray(periods, dtype=float) * float(TWO_PI / LD(LIB_TWO_PI))
